@@ -555,3 +555,323 @@ def c12(tier, seed):
 
 
 RUN["C12"] = c12
+
+
+# --------------------------------------------------------------------------- C18
+
+
+class _ScriptedRandom:
+    """Stands in for the ``random`` module inside mosaik.util: choices come from a script
+    (list of option indices); the number of options of every decision is recorded."""
+
+    def __init__(self, script):
+        self.script = list(script)
+        self.n = 0
+        self.options = []
+
+    def _next(self, nopts):
+        i = self.script[self.n] if self.n < len(self.script) else 0
+        self.n += 1
+        self.options.append(nopts)
+        return i % nopts
+
+    def randint(self, a, b):
+        if b < a:
+            raise ValueError("empty range for randrange()")
+        return a + self._next(b - a + 1)
+
+    def shuffle(self, lst):
+        import math
+
+        n = len(lst)
+        code = self._next(math.factorial(n))
+        items = list(lst)
+        out = []
+        for i in range(n, 0, -1):
+            out.append(items.pop(code % i))
+            code //= i
+        lst[:] = out
+
+
+class _RecWorld:
+    def __init__(self):
+        self.calls = []
+
+    def connect(self, src, dest, *attrs, **kw):
+        self.calls.append((src, dest, attrs, kw))
+
+
+def _bulk_run(ns, nd, evenly, maxc, rnd):
+    from mosaik import util
+
+    w = _RecWorld()
+    src = [f"s{i + 1}" for i in range(ns)]
+    dst = [f"d{i + 1}" for i in range(nd)]
+    saved = util.random
+    util.random = rnd
+    row = {"ns": ns, "nd": nd, "evenly": evenly, "maxc": maxc}
+    try:
+        kw = {"evenly": evenly}
+        if maxc:
+            kw["max_connects"] = maxc
+        ret = util.connect_randomly(w, src, list(dst), "a", ("b", "c"), **kw)
+        row.update({"ok": True, "ret": sorted(int(d[1:]) for d in ret)})
+    except BaseException as e:  # noqa: BLE001
+        row.update({"ok": False, "ret": [], "exc": f"{type(e).__name__}: {e}"[:100]})
+    finally:
+        util.random = saved
+    row["calls"] = [[int(s[1:]), int(d[1:])] for s, d, a, k in w.calls]
+    row["attrs_ok"] = all(a == ("a", ("b", "c")) and not k for s, d, a, k in w.calls)
+    return row
+
+
+def c18_exhaustive(max_ns, max_nd):
+    """All choice sequences for small sizes (stateless DFS over the scripted random source)."""
+    rows = []
+    for ns in range(0, max_ns + 1):
+        for nd in range(1, max_nd + 1):
+            for evenly, maxc in [(True, 0), (False, 0), (False, 1), (False, 2), (False, 3)]:
+                if not evenly and maxc and ns > nd * maxc:
+                    continue
+                stack = [[]]
+                while stack:
+                    script = stack.pop()
+                    rnd = _ScriptedRandom(script)
+                    row = _bulk_run(ns, nd, evenly, maxc, rnd)
+                    row["script"] = script
+                    rows.append(row)
+                    # expand the first decision beyond the script
+                    for pos in range(len(script), len(rnd.options)):
+                        for alt in range(1, rnd.options[pos]):
+                            stack.append(script + [0] * (pos - len(script)) + [alt])
+    return rows
+
+
+def c18(tier, seed):
+    import random as pyrandom
+
+    t0 = time.time()
+    rows = c18_exhaustive(4 if tier == "quick" else 5, 3)
+    nexh = len(rows)
+    rng = pyrandom.Random(f"c18|{seed}")
+    nseeded = 1500 if tier == "quick" else 20000
+    for _ in range(nseeded):
+        nd = rng.randint(1, 30)
+        evenly = rng.random() < 0.4
+        maxc = 0 if evenly or rng.random() < 0.3 else rng.randint(1, 5)
+        ns = rng.randint(0, nd * maxc if maxc else 100)
+        if maxc and rng.random() < 0.3:
+            ns = nd * maxc  # exactly filled (D5)
+        r = pyrandom.Random(rng.random())
+        rows.append(_bulk_run(ns, nd, evenly, maxc, r))
+    # connect_many_to_one
+    from mosaik import util
+
+    m2o_bad = []
+    for ns in range(0, 6):
+        for asyncr in (False, True):
+            w = _RecWorld()
+            util.connect_many_to_one(w, [f"s{i}" for i in range(ns)], "d", "a", ("b", "c"), async_requests=asyncr)
+            ok = [c[0] for c in w.calls] == [f"s{i}" for i in range(ns)] and all(
+                c[1] == "d" and c[2] == ("a", ("b", "c")) and c[3] == {"async_requests": asyncr} for c in w.calls)
+            if not ok:
+                m2o_bad.append({"ns": ns, "async_requests": asyncr, "calls": [list(map(str, c[:2])) for c in w.calls]})
+    viol, st, secs = _judge_rows("BulkConnectTable", "R18", rows)
+    findings = [checklib.Finding("C18", clause, case={"id": [clause, n], "kind": "c18", "row": rows[n]}, detail=json.dumps(rows[n])[:600], extra={"row": rows[n]})
+                for clause, n in viol]
+    for n, r in enumerate(rows):
+        if r["ok"] and not r["attrs_ok"]:
+            findings.append(checklib.Finding("C18", "C18_attribute_pairs_not_passed_through", case={"id": ["attrs", n], "kind": "c18", "row": r}, detail=json.dumps(r)[:300]))
+    for b in m2o_bad:
+        findings.append(checklib.Finding("C18", "C18_many_to_one_wrong", case={"id": ["m2o", b["ns"]], "kind": "c18", "row": b}, detail=json.dumps(b)))
+    # the specification itself: TLC on the nondeterministic process for small constants
+    mstates = mtrans = 0
+    configs = [(ns, nd, ev, mc) for ns in range(0, 5) for nd in (1, 2, 3) for ev, mc in [(True, 0), (False, 0), (False, 1), (False, 2)]
+               if ev or not mc or ns <= nd * mc]
+    import concurrent.futures as cf
+
+    def mc_one(cfg):
+        ns, nd, ev, mc = cfg
+        wd = tlc.scratch()
+        try:
+            shutil.copy(os.path.join(tlc.SPEC, "BulkConnect.tla"), wd)
+            open(os.path.join(wd, "BulkConnect.cfg"), "w").write(
+                f"SPECIFICATION Spec\nCONSTANTS NS = {ns} ND = {nd} Evenly = {'TRUE' if ev else 'FALSE'} MaxC = {mc}\n"
+                "INVARIANT EachSourceOnce\nINVARIANT Balanced\nINVARIANT Capped\nINVARIANT NeverStuck\nPROPERTY Terminates\nCHECK_DEADLOCK FALSE\n")
+            out, secs, rc = tlc.run_tlc("BulkConnect", cfg="BulkConnect.cfg", workdir=wd, workers=1, timeout=300, heap="1g")
+        finally:
+            shutil.rmtree(wd, ignore_errors=True)
+        if "No error has been found" not in out:
+            raise tlc.TLCError(f"BulkConnect.tla violates its own invariants for {cfg}\n" + "\n".join(out.splitlines()[-20:]))
+        return tlc.stats(out)
+
+    with cf.ThreadPoolExecutor(max_workers=12) as ex:
+        for s in ex.map(mc_one, configs):
+            mstates += s["distinct"]
+            mtrans += s["generated"]
+    cov = {
+        "states": mstates + st["distinct"], "transitions": mtrans + st["generated"], "traces_validated_against_impl": len(rows),
+        "samples": [rows[40], rows[-1]],
+        "evaluations": len(rows) + 12, "distinct_nontrivial": len({json.dumps([r["ns"], r["nd"], r["evenly"], r["maxc"], r["calls"]]) for r in rows}),
+        "rule": f"connect_randomly with the random source scripted: ALL choice sequences (every randint value, every shuffle permutation) for |src| <= "
+                f"{4 if tier == 'quick' else 5}, |dest| <= 3, evenly / max_connects in (unlimited,1,2,3) ({nexh} runs, exhaustive) + {nseeded} seeded runs with "
+                "|dest| <= 30 incl. exactly-filled capacities; each run's sequence of World.connect calls and returned set is replayed by TLC against BulkConnect's rules; "
+                "connect_many_to_one for 0..5 sources x async_requests; the specification itself is model-checked for |src| <= 4, |dest| <= 3; distinct = distinct call sequences",
+        "exhaustive": False,
+        "model_configs": len(configs),
+        "checker_cmd": "tlc -config BulkConnectTable.cfg BulkConnectTable (TRACE_FILE=<rows>); tlc BulkConnect (per constants)",
+    }
+    return checklib.conclude("C18", tier, seed, findings, cov, t0, ASSUME + ["mosaik.util's random source is replaced by a scripted object (the 'for all seeds' quantifier becomes 'for all choice sequences')"], max_report=3)
+
+
+RUN["C18"] = c18
+
+
+# --------------------------------------------------------------------------- C15
+
+C15_VERSIONS = ["1", "2", "2.0", "2.1", "2.1.9", "2.2", "2.2.0", "2.10", "3", "3.0", "3.0.16", "3.1", "4", "4.0", "10", None]
+
+
+def _c15_meta(ver, hastype):
+    meta = {"models": {"M": {"public": True, "params": [], "attrs": ["i", "p"]}}}
+    if ver is not None:
+        meta["api_version"] = ver
+    if hastype:
+        meta["type"] = "time-based"
+    return meta
+
+
+def _c15_explicit(ver, mode):
+    if mode == "absent":
+        return None
+    if mode == "equal":
+        return ver if ver is not None else "1"
+    return "2.5" if (ver or "1") != "2.5" else "2.6"
+
+
+def _c15_inproc(ver, explicit, kind, hastype):
+    import contextlib
+    import io
+    import warnings
+
+    import mosaik
+    from harness import stubs, vloop
+    from mosaik.exceptions import ScenarioError
+
+    stubs.CONFIG["meta"] = _c15_meta(ver, hastype)
+    del stubs.LOG[:]
+    cfg = {"python": "harness.stubs:" + ("V3SigDefault" if kind == "inproc_v3" else "OldSig")}
+    exp = _c15_explicit(ver, explicit)
+    if exp:
+        cfg["api_version"] = exp
+    loop = vloop.VLoop()
+    import asyncio
+
+    asyncio.set_event_loop(loop)
+    res = {"out": "ok", "msg": ""}
+    try:
+        with contextlib.redirect_stdout(io.StringIO()), warnings.catch_warnings(record=True):
+            warnings.simplefilter("always")
+            world = mosaik.World({"S": cfg}, asyncio_loop=loop, skip_greetings=True)
+            try:
+                fac = world.start("S", sim_id="Sa")
+                res["type_seen"] = fac.type
+                fac.M()
+                world.run(until=3, print_progress=False)
+            except ScenarioError as e:
+                res["out"], res["msg"] = "ScenarioError", str(e)[:150]
+            except BaseException as e:  # noqa: BLE001
+                res["out"], res["msg"] = "other", f"{type(e).__name__}: {e}"[:150]
+            finally:
+                try:
+                    world.shutdown()
+                except BaseException:  # noqa: BLE001
+                    pass
+    finally:
+        asyncio.set_event_loop(None)
+    log = [list(x) for x in stubs.LOG]
+    res["log"] = log
+    return res
+
+
+def _c15_remote(ver, explicit, hastype):
+    from harness import behave, drive
+
+    meta = _c15_meta(ver, hastype)
+    meta["models"]["M"]["attrs"] = ["i", "i2", "p", "p2"]
+    sim = {"sid": "Sa", "type": "time-based", "transport": "remote", "meta": meta}
+    exp = _c15_explicit(ver, explicit)
+    if exp:
+        sim["api_version"] = exp
+    scn = {"sims": [sim, {"sid": "Sb", "type": "time-based"}], "conns": [{"src": "Sa", "dst": "Sb", "sa": "p", "da": "i"}], "until": 3}
+    import warnings
+
+    with warnings.catch_warnings(record=True):
+        ctx = drive.execute(scn, behave.RandomBehaviour(1, tb_next=(1,)), behave.FifoPolicy())
+    res = {"out": "ok", "msg": ""}
+    o = ctx.outcome
+    if o["r"] == "ScenarioError":
+        res["out"], res["msg"] = "ScenarioError", o["msg"][:150]
+    elif o["r"] != "ok":
+        res["out"], res["msg"] = "other", (o["r"] + ": " + o["msg"])[:150]
+    res["log"] = ctx.stubs["Sa"].requests if "Sa" in ctx.stubs else []
+    res["type_seen"] = ctx.world.sims["Sa"].type if ctx.world is not None and "Sa" in ctx.world.sims else ""
+    res["obs"] = _obs(ctx)
+    return res
+
+
+def c15_rows():
+    rows = []
+    ref_remote = _c15_remote("3.0", "absent", True)
+    ref_inproc = _c15_inproc("3.0", "absent", "inproc_v3", True)
+
+    def steps(log):
+        return [x[1][0] for x in log if x[0] == "step"]
+
+    for ver in C15_VERSIONS:
+        for explicit in ("absent", "equal", "different"):
+            for kind in ("remote", "inproc_v3", "inproc_old"):
+                for hastype in (True, False):
+                    r = _c15_remote(ver, explicit, hastype) if kind == "remote" else _c15_inproc(ver, explicit, kind, hastype)
+                    log = r["log"]
+                    init = next((x for x in log if x[0] == "init"), None)
+                    step = next((x for x in log if x[0] == "step"), None)
+                    if kind == "remote":
+                        init_tr = bool(init) and "time_resolution" in init[2]
+                        same = r["out"] != "ok" or {s: [[t, i] for t, i in v] for s, v in r["obs"].items()} == ref_remote["obs"]
+                    else:
+                        init_tr = bool(init) and bool(init[2].get("__got_time_resolution__"))
+                        same = r["out"] != "ok" or steps(log) == steps(ref_inproc["log"])
+                    rows.append({
+                        "v": [int(x) for x in ver.split(".")] if ver is not None else [1], "hasv": ver is not None, "vs": ver or "",
+                        "explicit": explicit, "kind": kind, "hastype": hastype, "out": r["out"], "msg": r["msg"],
+                        "init_tr": init_tr, "setup_done": any(x[0] == "setup_done" for x in log),
+                        "step_nargs": len(step[1]) if step else 0, "type_seen": r.get("type_seen", ""), "sameobs": bool(same),
+                        "requests": [x[0] for x in log][:12],
+                    })
+    return rows
+
+
+def c15(tier, seed):
+    t0 = time.time()
+    rows = c15_rows()
+    viol, st, secs = _judge_rows("Adapters", "R15", rows)
+    findings = [checklib.Finding("C15", clause, case={"id": [clause, n], "kind": "c15", "row": rows[n]}, detail=json.dumps(rows[n])[:500], extra={"row": rows[n]})
+                for clause, n in viol]
+    import collections
+
+    cov = {
+        "states": st["distinct"], "transitions": st["generated"], "traces_validated_against_impl": len(rows),
+        "samples": [rows[3], next(r for r in rows if r["out"] == "ok" and r["vs"] == "2.1" and r["kind"] == "remote")],
+        "evaluations": len(rows), "distinct_nontrivial": len(rows),
+        "rule": f"api_version in {C15_VERSIONS} x explicit api_version (absent / equal / different) x (remote stub behind the shipped RemoteProxy over fake streams, "
+                "in-process stub with v3 signatures, in-process stub with old signatures) x meta with/without type; each row = world.start + create + run(until=3) "
+                "with the exact requests the stub received; compared with the run of a 3.0 stub",
+        "exhaustive": True,
+        "outcomes": dict(collections.Counter((r["kind"], r["out"]) .__str__() for r in rows)),
+        "checker_cmd": "tlc -config Adapters.cfg Adapters (TRACE_FILE=<rows>)",
+    }
+    return checklib.conclude("C15", tier, seed, findings, cov, t0, ASSUME + ["malformed version strings (e.g. '3.x') are outside the quantifier"], max_report=3)
+
+
+RUN["C15"] = c15
